@@ -411,13 +411,15 @@ def op_allscopes(seval, args):
     assert args, 'all-scopes: exactly one argument required'
     assert isinstance(args[0], WList), 'all-scopes: argument must be a valid expression'
     res = []
-    prev_scope = seval.global_environment.read('CS')
+    prev_scope = seval.scope
+    prev_cs = seval.global_environment.read('CS')
     for scope in seval.traces.scopes: # pylint: disable=E1101
         seval.scope = scope
         seval.global_environment.write('CS', scope)
         res.append(seval.eval(args[0]))
 
-    seval.global_environment.write('CS', prev_scope)
+    seval.scope = prev_scope
+    seval.global_environment.write('CS', prev_cs)
     return res
 
 
